@@ -755,7 +755,7 @@ func ParseNumberOptimized(text string) (interface{}, bool) {
 
 // isAlpha checks if a character is a letter or underscore
 func isAlpha(c byte) bool {
-	return (c >= 'a' && c <= 'z') || (c >= 'A' && c <= 'Z') || c == '_'
+	return (c >= 'a' && c <= 'z') || (c >= 'A' && c <= 'Z') || c == '_' || c >= 0x80
 }
 
 // isNameChar checks if a character is valid in a name
